@@ -140,6 +140,17 @@ class World:
         self.reg.register([self.I0], self.P, '', self.fOLD)
         self.reg.subscribe([self.I0], self.P, F('S_OLD', self))
         self.base.register([self.I0], self.P, 'b', F('BASE', self))
+        # two more provided interfaces extending P, so that the list of
+        # extendors walked by a lookup for P is [P, PA, PB]: PA belongs to an
+        # unrelated registration (required X), the answer for name 'e' and one
+        # subscriber are found under PB, i.e. *after* PA in that list
+        self.PA = mk('PA', self.P)
+        self.PB = mk('PB', self.P)
+        # (a newly registered interface goes in front of the unrelated ones)
+        self.reg.register([self.I0], self.PB, 'e', F('EB', self))
+        self.reg.subscribe([self.I0], self.PB, F('S_B', self))
+        self.reg.register([self.X], self.PA, '', F('XA', self))
+        assert self.reg._v_lookup._extendors[self.P] == [self.P, self.PA, self.PB]
 
         class K:
             @property
@@ -258,6 +269,8 @@ class World:
             return reg.lookup(req, P, '')
         if entry == 'lookup-default':
             return reg.lookup(req, P, 'nope', SENT) is SENT
+        if entry == 'lookup-e':
+            return reg.lookup(req, P, 'e')
         if entry == 'lookup1':
             return reg.lookup1(I1, P, '')
         if entry == 'lookupAll':
@@ -284,9 +297,9 @@ class World:
         raise AssertionError(entry)
 
 
-ENTRIES = ['lookup', 'lookup-default', 'lookup1', 'lookupAll', 'names', 'subscriptions',
+ENTRIES = ['lookup', 'lookup-default', 'lookup-e', 'lookup1', 'lookupAll', 'names', 'subscriptions',
            'queryAdapter', 'adapter_hook', 'queryMultiAdapter', 'subscribers', 'I(obj)']
-LAZY_OK = {'lookup', 'lookup-default', 'lookupAll', 'names', 'subscriptions'}
+LAZY_OK = {'lookup', 'lookup-default', 'lookup-e', 'lookupAll', 'names', 'subscriptions'}
 ACTIONS = ['nop', 'register-better', 'register-other-name', 'unregister-winner', 'subscribe',
            'unsubscribe', 'register-in-base', 'rebase-registry', 'rebase-interface', 'changed',
            'lookup.changed', 'reenter-same', 'reenter-other', 'gc', 'raise',
@@ -372,16 +385,42 @@ def scenario(case, light=False):
         b = norm(t.call(e, lz))
         if a != b:
             return ('stale-answer-survives:' + e, a, b), True
+    # no leak: once the lookup has ended and the caches are cleared, nobody
+    # but the harness (and the pinned dict one level up) refers to a container
+    # the interrupted frame was holding
+    objs = [p for p, _, _ in w.pinned if type(p) is dict]
+    if objs:
+        objs.append({})                 # control, held exactly like the others
+        w.pinned = []
+        p = snap = None
+        w.reg._v_lookup.changed(None)
+        base = _rc(objs, len(objs) - 1)
+        i = 0
+        while i < len(objs) - 1:
+            inside = 0
+            for d in objs:
+                for v in d.values():
+                    if v is objs[i]:
+                        inside += 1
+            v = d = None
+            extra = _rc(objs, i) - base - inside
+            if extra > 0:
+                return ('leak:cache-dict-still-referenced-after-the-lookup-ended',
+                        'references nobody accounts for: %d' % extra), True
+            i += 1
     return None, True
 
 
 def count_live():
+    """(live interfaces, all container objects the collector knows) after a
+    full collection."""
     gc.collect()
     n = 0
-    for o in gc.get_objects():
+    objs = gc.get_objects()
+    for o in objs:
         if type(o) is InterfaceClass:
             n += 1
-    return n
+    return n, len(objs)
 
 
 def leak_check(case):
@@ -393,12 +432,16 @@ def leak_check(case):
             pass
     for i in range(5):
         once()
-    n1 = count_live()
+    n1, t1 = count_live()
     for i in range(12):
         once()
-    n2 = count_live()
+    n2, t2 = count_live()
     if n2 > n1:
         return ('leak', 'live InterfaceClass objects after gc: %d -> %d over 12 repetitions' % (n1, n2))
+    if t2 - t1 >= 12:
+        # at least one container (e.g. a cache dict whose reference was not
+        # given back on an error path) stays behind per repetition
+        return ('leak', 'objects tracked by the collector after gc: %d -> %d over 12 repetitions' % (t1, t2))
     return None
 
 
@@ -437,6 +480,8 @@ MUTATORS = {
     'rebase-registry': lambda w: setattr(w.reg, '__bases__', (w.base2,)),
     'classImplements': lambda w: classImplements(w.K, w.X),
     'rebase-interface': lambda w: setattr(w.I1, '__bases__', (w.X,)),
+    # removes the last registration for PA: PA leaves the extendors of P
+    'unregister-unrelated-extendor': lambda w: w.reg.unregister([w.X], w.PA, ''),
 }
 SPEC_MUTATORS = ('classImplements', 'rebase-interface')
 SCHED_ENTRIES = ['lookup', 'lookup1', 'lookupAll', 'subscriptions', 'queryAdapter', 'adapter_hook']
@@ -712,7 +757,10 @@ def run(ctx):
             plans.append((flavour, mut, entries, bound, split))
         for flavour in ('adapter', 'verifying'):
             for mut in MUTATORS:
-                for e in SCHED_ENTRIES:
+                for e in SCHED_ENTRIES + ['lookup-e']:
+                    if (mut == 'unregister-unrelated-extendor') != (e in ('lookup-e', 'subscriptions', 'lookupAll')) \
+                            and (mut == 'unregister-unrelated-extendor' or e == 'lookup-e'):
+                        continue      # the extendors walk: only these pairings add anything
                     if quick:
                         add(flavour, mut, [e], 1)
                     else:
